@@ -330,14 +330,18 @@ func genYAMLBlock(t *rapid.T, indent string, depth int) []string {
 func genYAMLDocText(t *rapid.T) string {
 	ndocs := rapid.SampledFrom([]int{1, 1, 1, 2, 3}).Draw(t, "ndocs")
 	var lines []string
+	// a separator line may carry trailing blanks or a comment: still a separator for YAML, but not the line `---`
+	sep := func() string {
+		return rapid.SampledFrom([]string{"---", "---", "---", "---", "--- ", "---\t", "---  ", "--- # next document"}).Draw(t, "sepline")
+	}
 	if rapid.IntRange(0, 9).Draw(t, "directive") == 0 {
 		lines = append(lines, "%YAML 1.2", "---")
 	} else if rapid.IntRange(0, 3).Draw(t, "leadsep") == 0 {
-		lines = append(lines, "---")
+		lines = append(lines, sep())
 	}
 	for d := 0; d < ndocs; d++ {
 		if d > 0 {
-			lines = append(lines, "---")
+			lines = append(lines, sep())
 		}
 		switch rapid.IntRange(0, 10).Draw(t, "doctype") {
 		case 10: // an empty document: two separator lines in a row
@@ -363,6 +367,9 @@ func genYAMLDocText(t *rapid.T) string {
 		text += "\n\n\n"
 	default:
 		text += "\n"
+	}
+	if rapid.IntRange(0, 11).Draw(t, "bom") == 0 {
+		text = "\ufeff" + text // a file saved with a byte order mark, read with os.ReadFile
 	}
 	return text
 }
